@@ -238,6 +238,10 @@ def special_scenarios(years=common.YEARS):
                           'number_1099-int': '1', '1099-int:0.belongs_to': 'taxpayer', '1099-int:0.box_1': '210.00', '1099-int:0.box_15_1': 'SC',
                           '1099-int:0.box_17_1': '11.00', '1099-int:0.box_15_2': 'NC', '1099-int:0.box_17_2': '7.00'})
         out.append((y, ['1040', 'nc_d-400'], 9011, dict(base, status='Single', wages=30000, overrides=ncr)))
+        # more of the federal refund applied to next year's estimated tax than there is overpayment: the applied amount is capped by the overpayment
+        # (the N.C. form answers not-implemented in that situation, so the N.C. amount stays within the overpayment)
+        over = dict(nc, **{'w-2:0.box_2': '15000.00', 'w-2:0.box_17': '9000.00', 'apply_to_estimated_tax': '99999.00'})
+        out.append((y, ['1040', 'nc_d-400'], 9012, dict(base, status='Single', wages=60000, overrides=over)))
         # North Carolina, married filing jointly with three children who qualify for the child tax credit (child deduction for several children)
         nck = dict(nc, number_under_18='3', number_under_6='0')
         out.append((y, ['1040', 'nc_d-400'], 9009, dict(base, status='MarriedFilingJointly', wages=95000, n_dep=3, n_u17=3, overrides=nck)))
